@@ -11,7 +11,7 @@ from vlib.cassettes import open_box, async_over
 from vlib.programs import (gen_program, Built, World, Journal, describe, count_features, call_outcome, outcome_teq,
                            playback_function_for)
 from vlib.spies import SpyCassette
-from vlib.values import teq, in_domain
+from vlib.values import recording_in_domain, teq, in_domain
 
 PROPERTY = 'C01'
 LEVEL = 'exploration'
@@ -54,7 +54,7 @@ def run_case(ctx, case_seed, kind=None):
         recording_obj = spy.recordings[saves[0][1]]
         data = getattr(recording_obj, 'recording_data', None)
         md = getattr(recording_obj, 'recording_metadata', {})
-        if data is None or not (in_domain({'recording_data': data, 'recording_metadata': md}) and in_domain(dict(data, _metadata=md))):
+        if data is None or not recording_in_domain(data, md):
             ctx.count('recordings_out_of_serializer_domain')
             return
         ctx.case(dict(desc, cassette=kind), nontrivial=ncalls > 0)
